@@ -123,10 +123,10 @@ CLAIMED = {
         design="5/C17",
     ),
     "C02": dict(
-        technique="static analysis: syn syntax-tree rules (traversal completeness, rebuild-preserves, translation table, field-flow provenance, pass order)",
+        technique="static analysis: syn syntax-tree rules (traversal completeness, rebuild-preserves incl. stale children, translation table, field-flow provenance, pass order, post-order of the expansion order) + MIR scan for in-place edits of the shared expression arenas (with positive control)",
         text="Decides the shape-visible necessary conditions of C02 on /repo's current source (every pass descends into every child; rebuilt nodes keep their labels; "
         "each Expr variant is translated to the regex shape its meaning requires; literal/description/|| index/command flow unchanged into the automaton alphabet; "
-        "passes applied in order to the expression and every definition). It does NOT decide language equivalence of the Glushkov/subset construction; breaking any decided clause breaks the property, "
+        "passes applied in order to the expression and every definition; definitions expanded in dependency (post-)order; shared arena nodes never edited in place). It does NOT decide language equivalence of the Glushkov/subset construction; breaking any decided clause breaks the property, "
         "but the clauses holding does not prove it.",
         note="trusted: rustc's own checks (exhaustive matches, types); tables/tree.toml (allowed drops confirmed by reading); syn's parse of the source",
         design="5/C02",
@@ -170,7 +170,7 @@ m = {
         "add_only": True,
     },
     "engines": [
-        {"name": "M mirfacts", "path": "tools/mirfacts", "serves_properties": ["C06", "C10", "C13"], "kind_free_text": "rustc_private driver (RUSTC_WORKSPACE_WRAPPER under cargo +nightly check through tools/shim/rustc): MIR CFG, resolved callees, assert kinds, types; analyses in vlib/mir.py, vlib/rules_panic.py"},
+        {"name": "M mirfacts", "path": "tools/mirfacts", "serves_properties": ["C02", "C06", "C10", "C13", "C14"], "kind_free_text": "rustc_private driver (RUSTC_WORKSPACE_WRAPPER under cargo +nightly check through tools/shim/rustc): MIR CFG, resolved callees, assert kinds, types; analyses in vlib/mir.py, vlib/rules_panic.py"},
         {"name": "W witness", "path": "tools/witness", "serves_properties": ["C09", "C14"], "kind_free_text": "harness crate path-depending on /repo, compiled by nightly rustc: auto-trait reachability witnesses and compile_fail twins (vlib/witness.py)"},
         {"name": "S srcfacts", "path": "tools/srcfacts", "serves_properties": sorted(CLAIMED), "kind_free_text": "syn 2 syntax-tree dump (JSON) of /repo/src/*.rs; provenance resolver and rules in vlib/*.py"},
     ],
